@@ -487,6 +487,55 @@ SeqCases(fam, T) ==
         \o [k \in 1..(NLK - 1) |-> Spec0(fam, "nlall", T, NLAll(n, k + 1), FALSE, <<>>)]
         \o [g \in 1..n |-> Spec0(fam, "nl", T, NLAt(n, g + 1), FALSE, <<>>)]
 
+(* family "reasi" (7.8.5, 7.9.1): a regular expression literal whose body    *)
+(* starts with a character that also starts or continues a punctuator (the   *)
+(* scanner first sees "/=", "/", ">", ...), without and with flags, as the   *)
+(* LAST token of a line; the statement is ended only by the line terminator  *)
+(* (every kind of it) and the next line starts with a keyword, an identifier,*)
+(* "(" or "[" (the last two continue the expression: no insertion).  The     *)
+(* division readings a /= b, a / b at the end of a line are the controls.    *)
+ReBodies == << <<61>>, <<61, 43>>, <<61, 61>>, <<61, 92, 47>>, <<92, 47>>, <<92, 47, 61>>, <<62>>, <<62, 62, 61>>, <<60, 61>>, <<92, 43>>, <<92, 43, 61>>,
+               <<45>>, <<45, 61>>, <<45, 45>>, <<124>>, <<124, 61>>, <<38>>, <<38, 38>>, <<33>>, <<33, 61>>, <<46>>, <<92, 46, 61>>, <<92, 41>>, <<91, 61, 93>>,
+               <<91, 47, 93, 61>>, <<37, 61>>, <<94>>, <<94, 61>>, <<92, 42, 61>>, <<58>>, <<44>>, <<59>>, <<92, 63>>, <<97>>, <<126>> >>
+ReFlags == << <<>>, <<103>>, <<103, 105, 109>> >>
+ReNexts == << <<TK("var"), TI("b"), TP("="), TNum(<<49>>), TP(";")>>, <<TI("b"), TP("="), TNum(<<50>>), TP(";")>>, <<TP("("), TI("b"), TP(")"), TP(";")>>,
+              <<TP("["), TI("b"), TP("]"), TP("."), TI("m"), TP(";")>>, <<TK("if"), TP("("), TI("b"), TP(")"), TP(";")>>, <<TK("this"), TP("."), TI("m"), TP(";")>>, <<>> >>
+ReHeads == << <<TK("var"), TI("r"), TP("=")>>, <<TI("r"), TP("=")>>, <<TI("f"), TP("("), TI("a"), TP(")"), TP(";")>>, <<TK("typeof")>> >>
+ReAsiSeqs ==      \* [T, g]: token sequence and the gap (separator index) right behind the literal
+    [x \in (1..Len(ReBodies)) \X (1..Len(ReFlags)) \X (1..Len(ReNexts)) |->
+        LET hd == ReHeads[1 + ((x[1] + x[3]) % Len(ReHeads))]
+        IN  [T |-> hd \o <<TRe(ReBodies[x[1]], ReFlags[x[2]])>> \o ReNexts[x[3]], g |-> Len(hd) + 2]]
+DivAsiSeqs == <<
+    [T |-> <<TI("a"), TP("/="), TI("b"), TI("c"), TP(";")>>, g |-> 4], [T |-> <<TI("a"), TP("/="), TI("b"), TK("var"), TI("c"), TP(";")>>, g |-> 4],
+    [T |-> <<TI("a"), TP("/="), TI("b"), TP("("), TI("c"), TP(")"), TP(";")>>, g |-> 4], [T |-> <<TI("a"), TP("/="), TI("b"), TP("/"), TI("c"), TP("/"), TI("g"), TP(";")>>, g |-> 4],
+    [T |-> <<TI("a"), TP("/"), TI("b"), TI("c"), TP(";")>>, g |-> 4], [T |-> <<TI("a"), TP("="), TI("b"), TP("/="), TI("c"), TP("["), TI("d"), TP("]"), TP(";")>>, g |-> 6],
+    [T |-> <<TI("a"), TP("/="), TRe(<<61>>, <<>>), TI("c"), TP(";")>>, g |-> 4], [T |-> <<TI("a"), TP("/="), TRe(<<61, 43>>, <<103>>), TK("var"), TI("c"), TP(";")>>, g |-> 4],
+    [T |-> <<TI("a"), TP("/"), TRe(<<61>>, <<>>), TP("."), TI("m"), TK("if"), TP("("), TI("c"), TP(")"), TP(";")>>, g |-> 6],
+    [T |-> <<TI("a"), TP("="), TI("b"), TP("/="), TI("c")>>, g |-> 6], [T |-> <<TP("{"), TI("a"), TP("="), TRe(<<61>>, <<>>), TP("}"), TI("c")>>, g |-> 5] >>
+NLAtK(n, g, k) == [i \in 1..(n + 1) |-> IF i = g THEN S!NLSeps[k] ELSE IF i = 1 \/ i = n + 1 THEN "" ELSE "sp"]
+MinNLAtK(n, g, k) == [i \in 1..(n + 1) |-> IF i = g THEN S!NLSeps[k] ELSE ""]
+ReAsiCases(fam, c) ==
+    LET T == c.T  n == Len(T)
+    IN  <<Spec0(fam, "sp", T, AllSep(n, "sp"), FALSE, <<>>), Spec0(fam, "min", T, AllSep(n, ""), FALSE, <<>>), Spec0(fam, "nlall", T, NLAll(n, 1), FALSE, <<>>)>>
+        \o [k \in 1..NLK |-> Spec0(fam, "nl-after-literal", T, NLAtK(n, c.g, k), FALSE, <<>>)]
+        \o [k \in 1..NLK |-> Spec0(fam, "nl-after-literal-min", T, MinNLAtK(n, c.g, k), FALSE, <<>>)]
+
+(* family "lc" (7.8.4): every LineContinuation form x its position in the     *)
+(* literal x both quotes; a LineContinuation contributes nothing to the SV   *)
+LTForms == << <<10>>, <<13>>, <<13, 10>>, <<8232>>, <<8233>> >>
+LCo(j) == <<92>> \o LTForms[j]
+LcShapes(a, b) ==       \* literal contents built from the continuations a and b
+    << a \o <<97, 98>>, <<97>> \o a \o <<98>>, <<97, 98>> \o a, a, <<97>> \o a \o b \o <<98>>, a \o b, <<97, 98>> \o a \o b,
+       <<92, 110>> \o a \o <<98>>, <<92, 120, 52, 49>> \o a, <<92, 117, 48, 48, 52, 49>> \o a \o <<98>>, <<92, 48>> \o a, <<92, 92>> \o a,
+       <<97>> \o a \o <<92, 110>>, a \o <<92, 120, 52, 49>>, <<97>> \o a \o <<92, 92>>, a \o <<92, 39>>, a \o <<92, 34>>, <<97>> \o a \o <<110>>,
+       <<97>> \o a \o <<32>>, <<32>> \o a, <<97>> \o a \o <<10>>, <<97>> \o a \o <<13>>, <<97, 92, 13, 92, 10, 98>>, <<233>> \o a \o <<233>> >>
+NLcShapes == 24
+LcToks ==
+    [x \in (1..Len(LTForms)) \X (1..Len(LTForms)) \X (1..NLcShapes) \X {34, 39} |->
+        TStr(<<x[4]>> \o LcShapes(LCo(x[1]), LCo(x[2]))[x[3]] \o <<x[4]>>)]
+LcSel == {x \in DOMAIN LcToks : x[2] = x[1] \/ x[3] \in {5, 6, 7}}      \* the second form matters only for the two-continuation shapes
+LcSeq == SetToSeq(LcSel)
+
 (* a lexical case: the text is given; the tokens carry their own nl flags *)
 LexSpec(c) == [fam |-> "lex", tag |-> c.name, T |-> c.toks, src |-> c.src,
                T2 |-> IF c.alt # <<>> /\ c.alt[1].d \in OpenDev THEN c.alt[1].toks ELSE c.toks]
@@ -528,6 +577,10 @@ Next ==
          [] fam = "seq" -> \E j \in {x \in 1..Len(SeqPool) : x % KB = bi - 1} : cs' = [t |-> "seq", fam |-> fam, T |-> SeqPool[j]]
          [] fam = "lit" -> \E j \in {x \in 1..Len(LitToks) : x % KB = bi - 1} : cs' = [t |-> "seq1", fam |-> fam, T |-> LitProgram(LitToks[j])]
          [] fam = "key" -> \E j \in {x \in 1..Len(KeyToks) : x % KB = bi - 1} : cs' = [t |-> "seq1", fam |-> fam, T |-> KeyProgram(KeyToks[j])]
+         [] fam = "reasi" -> \E x \in {y \in DOMAIN ReAsiSeqs : (y[1] + y[2] * 7 + y[3] * 3) % KB = bi - 1} : cs' = [t |-> "reasi", fam |-> fam, c |-> ReAsiSeqs[x]]
+         [] fam = "divasi" -> \E j \in {x \in 1..Len(DivAsiSeqs) : x % KB = bi - 1} : cs' = [t |-> "reasi", fam |-> fam, c |-> DivAsiSeqs[j]]
+         [] fam = "lc" -> \E j \in {x \in 1..Len(LcSeq) : x % KB = bi - 1}, m \in 1..2 :
+                              cs' = [t |-> "seq1", fam |-> fam, T |-> IF m = 1 THEN LitProgram(LcToks[LcSeq[j]]) ELSE KeyProgram(LcToks[LcSeq[j]])]
          [] fam = "long" -> \E j \in {x \in 1..Len(LongToks) : x % KB = bi - 1} : cs' = [t |-> "seq1", fam |-> fam, T |-> LitProgram(LongToks[j])]
          [] fam = "rw" -> \E j \in {x \in 1..Len(RwSeq) : x % KB = bi - 1}, m \in 1..NRwP : cs' = [t |-> "seq1", fam |-> fam, T |-> RwPrograms(RwSeq[j])[m]]
          [] fam = "lex" -> \E j \in {x \in 1..Len(LexPool) : x % KB = bi - 1} : cs' = [t |-> "lex", fam |-> fam, c |-> LexPool[j]]
@@ -537,6 +590,7 @@ Lines(c) ==
                           TreeCases(c.fam, ps[1], c.full) \o (IF Len(ps) > 1 THEN TreeCases(c.fam, ps[2], FALSE) \o TreeCases(c.fam, ps[3], FALSE) ELSE <<>>)
       [] c.t = "prog" -> TreeCases(c.fam, c.p, c.full)
       [] c.t = "seq" -> SeqCases(c.fam, c.T)
+      [] c.t = "reasi" -> ReAsiCases(c.fam, c.c)
       [] c.t = "seq1" -> <<Spec0(c.fam, "sp", c.T, AllSep(Len(c.T), "sp"), FALSE, <<>>), Spec0(c.fam, "min", c.T, AllSep(Len(c.T), ""), FALSE, <<>>)>>
       [] c.t = "lex" -> <<LexSpec(c.c)>>
 (* a lexical case carries its own text and flags: separators empty, tokens as given *)
